@@ -19,7 +19,17 @@ Proof.
 Qed.
 
 Lemma stop_sym : forall eps a b, stop eps b a = stop eps a b.
-Proof. intros. unfold stop. rewrite (Rabs_minus_sym a b). reflexivity. Qed.
+Proof. exact stop_swap. Qed.
+
+(* the hypothesis of simpson_adaptive_reverse_if_panel_antisymmetric fails on the pinned tree *)
+Lemma panel_antisymmetric_refuted : ~ (forall (f : R -> C) (a b : R), S3 f b a = Copp (S3 f a b)).
+Proof.
+  intros H. specialize (H (fun _ => (1, 0)) 0 1). rewrite S3_sym in H.
+  assert (E : fst (S3 (fun _ : R => (1, 0)) 0 1) = 1) by (rewrite S3_fst by lra; cbn [fst]; field).
+  rewrite H in E at 1. unfold Copp in E. cbn [fst] in E.
+  assert (E2 : fst (S3 (fun _ : R => (1, 0)) 0 1) = 1) by (rewrite S3_fst by lra; cbn [fst]; field).
+  lra.
+Qed.
 
 Lemma delta_sym : forall f a b, delta f b a = delta f a b.
 Proof.
@@ -70,3 +80,16 @@ Proof.
   rewrite adaptive_x_10, adaptive_x_01 in H. unfold Copp in H. cbn [fst snd] in H.
   injection H as H1 _. lra.
 Qed.
+
+(* AFTER THE REPAIR (quad_simpsons_mem: `(b - a) / 6.0` instead of `(b - a).abs() / 6.0`) this file no longer compiles and
+   the reversal clause becomes a theorem; checked against a patched copy of the source:
+
+     Lemma S3_antisym : forall (f : R -> C) (a b : R), S3 f b a = Copp (S3 f a b).
+     Proof.
+       intros f a b. unfold S3, quad_simpsons_mem. cbv zeta. cbn [fst snd sdiv sadd ssub sabs s_of_Z Rops].
+       replace ((b + a) / 2) with ((a + b) / 2) by field.
+       destruct (f a) as [x y], (f b) as [u v], (f ((a + b) / 2)) as [s t]. cbv [Copp vscale vadd Rops fst snd]. f_equal; field.
+     Qed.
+     Theorem C12_adaptive_reverse : forall (f : R -> C) (a b eps : R) d,
+       simpson_adaptive Rops f b a eps d = Copp (simpson_adaptive Rops f a b eps d).
+     Proof. exact (simpson_adaptive_reverse_if_panel_antisymmetric S3_antisym). Qed.                                   *)
